@@ -424,6 +424,14 @@ func (w *world) doOp(ti int, name string, op sim.Op) {
 		}
 		e.Logf("%s free %d -> %s", name, idx, out)
 		w.hist = append(w.hist, histOp{client: ti, kind: "free", idx: idx, out: out, call: call, ret: e.Stamp()})
+	case "realloc":
+		if w.sb != nil {
+			if err := w.sb.Grow(int64(len(w.sb.b))); err != nil {
+				e.HarnessError("realloc: " + err.Error())
+			}
+			e.FaultFired("storage_memory_moved")
+		}
+		return
 	case "touch":
 		var mine []int
 		for i, a := range w.alloc {
